@@ -51,6 +51,6 @@ C09_Parts == {P("exec", "none"), P("execp", "none"), P("execp", "all"), P("eval"
 \* ---- C12: outcomes x process-global effects (single run part)
 C12_Parts == {P("exec", "none"), P("execp", "all"), P("evalp", "c_replace"), P("raise", "none"), P("raise", "tb_exact"),
               P("exit", "none"), P("sysexit", "none"), P("kbint", "none"), P("await", "repr"), P("await", "none"),
-              P("swapout", "none"), P("filters", "none"), P("cerr", "none"),
+              P("swapout", "none"), P("closeout", "none"), P("filters", "none"), P("cerr", "none"),
               [body |-> "comment", want |-> "none", dirs |-> <<D("SKIP", TRUE)>>, inline |-> FALSE]}
 =============================================================================
